@@ -285,6 +285,12 @@ def run(ctx):
             grid.append({'kind': 'cli', 'line': 'SSH-2.0-OpenSSH_8.9p1 Ubuntu-3ubuntu0.1', 'header': ['notice', 'x' * n + ' end', 'SSH is monitored'], 'eol': '\n', 'segment': seg})
             grid.append({'kind': 'cli', 'line': 'SSH-2.0-Server_1.0 ' + 'c' * n, 'header': [], 'eol': '\r\n', 'segment': seg})
             grid.append({'kind': 'cli', 'line': 'SSH-2.0-' + 's' * n, 'header': ['hello'], 'eol': '\n', 'segment': seg})
+    # a notice of a few dozen lines in front of the identification string, delivered byte by byte (thousands of reads)
+    notice = ['* line %02d of the notice: authorised use only, sessions are recorded *' % i for i in range(30)]
+    for seg in (1, 2, 3):
+        for eol in ('\r\n', '\n'):
+            grid.append({'kind': 'cli', 'line': 'SSH-2.0-OpenSSH_8.9p1 Ubuntu-3ubuntu0.1', 'header': notice, 'eol': eol, 'segment': seg})
+            grid.append({'kind': 'cli', 'line': 'SSH-2.0-OpenSSH_8.9p1 Ubuntu-3ubuntu0.1', 'header': notice[:12], 'eol': eol, 'segment': seg, 'role': 'client'})
     ctx.map(grid)
     if not q:
         from vlib import fuzzrun
